@@ -222,19 +222,25 @@ class Scratch:
                 h[f] = hashlib.sha256(open(os.path.join(d, f), "rb").read()).hexdigest()[:16]
         return h
 
-    def build(self, pkg):
+    def build(self, pkg, derive=False):
         d = os.path.join(self.root, pkg)
         src = open(os.path.join(vf.HARNESS, "gombok", "driver_test.go.txt")).read().replace("package PKG", "package " + pkg)
         with open(os.path.join(d, "verif_driver_test.go"), "w") as fh:
             fh.write(src)
+        if derive:
+            src = open(os.path.join(vf.HARNESS, "gombok", "derive_test.go.txt")).read().replace("package PKG", "package " + pkg)
+            with open(os.path.join(d, "verif_derive_test.go"), "w") as fh:
+                fh.write(src)
         v = subprocess.run(["go", "vet", "-structtag=false", "-copylocks=false", "./" + pkg], cwd=self.root, env=self.env, capture_output=True, text=True)
         b = subprocess.run(["go", "build", "./" + pkg], cwd=self.root, env=self.env, capture_output=True, text=True)
         return b.returncode == 0, v.returncode == 0, (b.stderr + v.stderr)[-1500:]
 
-    def drive(self, pkg, seed):
+    def drive(self, pkg, seed, test="TestVerifDriver"):
         d = os.path.join(self.root, pkg)
         out = os.path.join(d, "events.ndjson")
+        if os.path.exists(out):
+            os.remove(out)
         env = dict(self.env, VERIF_OUT=out, VERIF_SEED=str(seed))
-        p = subprocess.run(["go", "test", "-vet=off", "-count=1", "-run", "TestVerifDriver", "./" + pkg], cwd=self.root, env=env, capture_output=True, text=True, timeout=900)
+        p = subprocess.run(["go", "test", "-vet=off", "-count=1", "-run", test + "$", "./" + pkg], cwd=self.root, env=env, capture_output=True, text=True, timeout=900)
         events = [json.loads(l) for l in open(out)] if os.path.exists(out) else []
         return p.returncode, (p.stdout + p.stderr)[-2500:], events
